@@ -1,0 +1,9 @@
+//go:build verif && amd64 && !js
+
+#include "textflag.h"
+
+// func vGetg() uintptr
+TEXT ·vGetg(SB),NOSPLIT,$0-8
+	MOVQ (TLS), AX
+	MOVQ AX, ret+0(FP)
+	RET
